@@ -1,4 +1,5 @@
 import EV.Driver.SighashUtil
+import EV.Driver.MemTx
 namespace EV.Driver.C03
 open EV EV.Driver EV.Codec EV.Sighash EV.Driver.SighashUtil
 
@@ -40,14 +41,15 @@ def resLine (digest msg : Res Bytes) (specOk : Bool) : String :=
   | .panic _, _ => "panic" ++ tail
   | _, _ => "model-inconsistent"
 
-/-- `sighash <txhex> <prevouts> <genesis> <query>` → `ok <digest> <message>` -/
+/-- `sighash <txhex | m:memtx> <prevouts> <genesis> <query>` → `ok <digest> <message>`
+    (`m:`: field-wise in-memory transport, `EV.Driver.MemTx`, for values the consensus encoding cannot carry) -/
 def sighashOp : Handler
   | cfg, [txh, pvs, gen, q] =>
     let P := lax cfg.prims
-    match Hex.decode txh, Hex.decode gen with
-    | some tb, some g =>
-      match Tx.deserialize P tb, parsePrevouts P pvs with
-      | .ok tx, some ps =>
+    match MemTx.decodeTxArg P txh, Hex.decode gen with
+    | some tx, some g =>
+      match parsePrevouts P pvs with
+      | some ps =>
         match parseQuery P ps g q with
         | some .annexErr => "err"
         | some (.op (.q qq)) =>
@@ -60,7 +62,7 @@ def sighashOp : Handler
             | none => true)
           resLine d m specOk
         | _ => "bad-op"
-      | _, _ => "bad-op"
+      | _ => "bad-op"
     | _, _ => "bad-op"
   | _, _ => "bad-op"
 
